@@ -30,8 +30,18 @@ ASSUMPTIONS = ["rows are made of printable single-column characters: no control 
                "cursor_pos lies on the screen", "terminal has at least one row and one column",
                "the terminal implements ECMA-48/xterm semantics as written in lean/Curtsies/Spec/Term.lean "
                "(cross-checked against pyte on every run, which is evidence, not proof)"]
-TRUSTED = ["lean/Curtsies/Spec/Term.lean (terminal semantics) and harness/termref.py's tokeniser for the dozen fixed "
-           "capability strings (regenerated from blessed under TERM=xterm on every run)"]
+TRUSTED = ["lean/Curtsies/Spec/Term.lean (terminal semantics) and harness/termref.py's stream tokeniser (a standard ECMA-48 "
+           "reader restricted to the spec's vocabulary; the capability strings regenerated from blessed under TERM=xterm "
+           "must read as the control functions the model writes: check_caps on every run)"]
+LEVEL_NOTE = ("PROVED in Lean for all inputs of the model: C02_render (one render from any terminal state satisfying the cache "
+              "invariant - any junk screen when the cache is empty or the size changed: screen = array clipped, cursor at "
+              "cursor_pos, no scroll, invariant again), C02_history (every render of every render|resize history), C02_caps. "
+              "Hypotheses in the statements: cursor_pos on the screen; rows `Glyphs u` = printable characters (no control "
+              "character) each one column wide under the width environment u; the terminal in its default graphic state when "
+              "a render starts (`t.g = {}`, re-established by every render); resizes go to a size different from the one last "
+              "rendered at. The array is a list of FmtStr in the model: str rows and FSArray containers are covered by the tie "
+              "only. trusted: Lean kernel + propext/Classical.choice/Quot.sound, the hand-written window model (tied per run), "
+              "the terminal spec Spec/Term.lean (cross-checked against the Python mirror and pyte per run), the stream tokeniser")
 
 ATTS = [{}, {"fg": 31}, {"bg": 44, "bold": True}, {"fg": 32, "underline": True, "bold": False}, {"invert": True},
         {"bg": 41, "fg": 37}, {"italic": True, "blink": True}, {"dark": True}]
@@ -111,6 +121,7 @@ def run_history(c):
     ref = Term(c["h"], c["w"], c["junk"], *c["cursor"])
     py = termref.PyteTerm(c["h"], c["w"], c["junk"], *c["cursor"]) if c.get("pyte", True) else None
     out = []
+    tok = termref.StreamTokenizer()
     for st in c["steps"]:
         if st[0] == "Z":
             _, h, w, junk = st
@@ -131,7 +142,7 @@ def run_history(c):
             win.render_to_terminal(mk_array(rows, container), tuple(pos))
         writes = rec.take()
         try:
-            ops = tokenize(writes)
+            ops = tokenize(writes, tok)
         except termref.Untokenisable as e:
             out.append(dict(error=str(e)))
             break
@@ -164,7 +175,7 @@ def canon(reply):
         if f[0] == "resized" or len(f) != 6:
             steps.append(part)
         else:
-            steps.append((tuple(termref.dec_ops(f[0])), tuple(sorted(termref.dec_term(f[1:]).items()))))
+            steps.append((tuple(termref.norm_ops(termref.dec_ops(f[0]))), tuple(sorted(termref.dec_term(f[1:]).items()))))
     return tuple(steps)
 
 
@@ -191,7 +202,7 @@ def oracle(c, outs):
         if st[0] in ("E", "X") or c.get("outside_domain"):
             continue            # entering/leaving is C12's business (tied here); rows with control characters are not judged
         if "error" in o:
-            return "step %d: %s" % (i, o["error"])
+            return None     # a control function outside the terminal spec: the reference screen is undefined; the tie reports it
         _, pos, rows, _ = st
         want = [(eff_row(rows[r])[:w] if r < len(rows) else []) for r in range(h)]
         want = tuple(tuple(row + [termref.BLANK] * (w - len(row))) for row in want)
@@ -209,9 +220,11 @@ def oracle(c, outs):
         if s["g"] != ():
             return "step %d: graphic state left as %r" % (i, s["g"])
         if o["pyte"]:
+            # second opinion only: the property is judged on the reference terminal (xterm semantics); pyte differs from
+            # xterm in corners (LF/EL/DECRC with a pending wrap) - a disagreement is counted and noted, not a violation
             pscreen, pcur, psb = o["pyte"]
             if not termref.same_modulo_dark(pscreen, [list(r) for r in s["screen"]]) or pcur[:2] != s["cursor"][:2] or psb:
-                return "step %d: pyte disagrees with the reference terminal: %r vs %r" % (i, (pscreen, pcur), (s["screen"], s["cursor"]))
+                c.setdefault("_pyte_disagrees", []).append(i)
     return None
 
 
@@ -395,18 +408,73 @@ def cross_check_spec(ctx):
         ctx.count(c, tag="termspec")
 
 
+def pyte_second_opinion(ctx):
+    """the terminal spec (through its Python mirror, which the tie above pins to Spec/Term.lean) against pyte on random
+    operation sequences, where the two are comparable: a wide terminal (no pending wrap: pyte and xterm differ there),
+    blank cells compared as blanks (pyte erases with all attributes, xterm with the background), SGR 2 ignored (pyte has
+    no faint), one DECRC per DECSC.  A standing second opinion: disagreements are counted and noted, never a violation."""
+    r = ctx.rng
+    bad = 0
+    n = 1200 if ctx.thorough else 300
+    for _ in range(n):
+        h, w = r.randint(1, 4), 20
+        ops, armed = [], False
+        for _ in range(r.randint(1, 12)):
+            k = r.choice(["cup", "cup", "cha", "put", "put", "lf", "el0", "el1", "ed0", "hide", "show", "decsc", "decrc"])
+            if k == "cup":
+                ops.append(("cup", r.choice([0, 1, 2, 3, 1000000]), r.randint(0, 5)))
+            elif k == "cha":
+                ops.append(("cha", r.randint(0, 5)))
+            elif k == "put":
+                cells = tuple((ch, sgrterm.freeze({k2: v for k2, v in a.items() if v is not False}))
+                              for ch, a in rand_cells(r, r.randint(0, 6), "abcxyz."))
+                ops.append(("put", cells, ()))
+            elif k == "decsc":
+                armed = True
+                ops.append((k,))
+            elif k == "decrc":
+                if armed:
+                    ops.append((k,))
+                    armed = False
+            else:
+                ops.append((k,))
+        cur = (r.randint(0, h - 1), r.randint(0, 4))
+        t = Term(h, w, [], cur[0], cur[1]).run(ops)
+        py = termref.PyteTerm(h, w, [], cur[0], cur[1])
+        py.feed(termref.ops_bytes(ops))
+        norm = lambda rows: [[(ch, () if ch == " " else tuple(kv for kv in e if kv[0] != "dark")) for ch, e in row] for row in rows]
+        same = (norm(t.grid) == norm(py.screen()) and norm(t.scrollback) == norm(py.scrollback())
+                and (t.r, t.c) == py.cursor()[:2] and t.visible == py.cursor()[3])
+        ctx.count(dict(h=h, ops=ops, cur=cur), tag="termspec-vs-pyte")
+        if not same:
+            bad += 1
+            if bad == 1:
+                ctx.note("terminal spec vs pyte (second opinion) differ on %r from %r: spec %r cursor %r, pyte %r cursor %r"
+                         % (ops, cur, t.grid, (t.r, t.c), py.screen(), py.cursor()))
+    ctx.dist["termspec-vs-pyte-disagreements"] += bad
+    ctx.exhaustive.append("terminal spec vs pyte on %d random operation sequences (wide terminal, normalised): %d differ" % (n, bad))
+
+
 def check(ctx):
+    termref.check_caps()
     cross_check_spec(ctx)
+    pyte_second_opinion(ctx)
     r = ctx.rng
     cases = [rand_history(r) for _ in range(6000 if ctx.thorough else 1500)]
     cases += pair_cases(ctx)
-    # OUTSIDE the domain (control characters in a row): model and code are still compared, nothing is judged.
-    # What happens: the newline is written as it is; a real terminal moves down a row (and scrolls on the bottom row)
-    # instead of showing a glyph, so the screen no longer matches the array -- the reference terminal of the check
-    # stores it as a cell, which is why such rows are excluded (`Printable`).
-    for rows in ([[("a\nb", {})]], [[("ab", {"fg": 31})], [("\tx", {})]], [[("a\rb", {})], []]):
-        cases.append(dict(h=2, w=4, junk=[], cursor=(0, 0), hide=True, pyte=False, outside_domain=True,
-                          steps=[("R", (0, 0), rows, "list"), ("R", (1, 1), rows[:1], "list")]))
+    # OUTSIDE the domain (control characters in a row): shown, not judged, not tied.  The window writes the newline as it
+    # is; the terminal moves down a row instead of showing a glyph, so the screen no longer equals the array (the model's
+    # `put` would store it as a cell - which is why `Glyphs` excludes control characters).
+    for rows in ([[("a\nb", {})]], [[("a\rb", {})], []]):
+        oc = dict(h=2, w=4, junk=[], cursor=(0, 0), hide=True, pyte=False, outside_domain=True,
+                  steps=[("R", (0, 0), rows, "list")])
+        try:
+            o = run_history(oc)[0]
+            ctx.note("outside the domain: rendering %r on 2x4 gives the screen %r" % (
+                rows, ["".join(ch for ch, _ in row) for row in o["state"]["screen"]]) if "state" in o else
+                "outside the domain: rendering %r: %s" % (rows, o.get("error")))
+        except Exception as e:  # noqa: BLE001
+            ctx.note("outside the domain: rendering %r raised %s" % (rows, e))
     outs = {}
 
     def impl(c):
@@ -427,6 +495,11 @@ def check(ctx):
         w = safe_oracle(c, outs[id(c)])
         if w:
             ctx.violation(w, c, None)
+        elif c.get("_pyte_disagrees"):
+            ctx.dist["pyte-disagrees-with-reference-terminal"] += 1
+            if ctx.dist["pyte-disagrees-with-reference-terminal"] == 1:
+                ctx.note("pyte (second opinion) disagrees with the reference terminal although the property holds on it, "
+                         "first at steps %r of %r" % (c["_pyte_disagrees"], line(c)[:300]))
 
 
 def search(ctx):
